@@ -7,7 +7,7 @@ set -u
 cd $W || exit 2
 [ -f $S/patch.diff ] || { echo "no patch"; exit 2; }
 # normalise: start from a clean tree + demo
-git stash -q 2>/dev/null; git checkout -q -- . ; git stash drop -q 2>/dev/null
+git checkout -q -- .
 git apply --check $S/patch.diff || { echo "patch does not apply"; exit 2; }
 run_demo() {
   if [ -d $S/demo ]; then (cd $S/demo && cargo test --offline 2>&1 | grep -E "^test result|^error" | awk '/^test result/ {p+=$4; f+=$6} /^error/ {e=e" "$0} END {print "passed="p" failed="f e}')
